@@ -96,7 +96,33 @@ def harness_originated(e):
                         break
                 if o is not None and callable(o):
                     return True
+            # ... or a callable of that name defined anywhere in the checker (nested classes of stand-ins, local classes)
+            import gc
+
+            for o in gc.get_objects():
+                try:
+                    if callable(o) and getattr(o, "__name__", None) == leaf[-1] and _defined_in_checker(o):
+                        return True
+                except Exception:  # noqa: BLE001, S112
+                    continue
     return False
+
+
+def clear_library_caches():
+    """functools caches of the library must not carry objects from one symbolic path (built with stand-ins bound into the
+    library's modules) into another path or into a replay on the real dependencies."""
+    import sys
+
+    for name, mod in list(sys.modules.items()):
+        if name == "black_it" or name.startswith("black_it."):
+            for v in list(vars(mod).values()):
+                for o in (v, *(vars(v).values() if isinstance(v, type) else ())):
+                    cc = getattr(o, "cache_clear", None)
+                    if callable(cc):
+                        try:
+                            cc()
+                        except Exception:  # noqa: BLE001, S110
+                            pass
 
 
 def reraise_if_harness(e):
@@ -1089,6 +1115,7 @@ class Explorer:
             self.som_fastpath = False
             self.scratch = {}
             prev, _CUR = _CUR, self
+            clear_library_caches()
             try:
                 ncex = len(self.cex) + len(self.known_hits)
                 self.body(self)
@@ -1126,6 +1153,7 @@ class Explorer:
                     self.cex.append(Cex("no_unexpected_exception", vals, f"{type(e).__name__}: {e} | {tb}", list(self.prefix[: self.pos]), kind="exception"))
             finally:
                 _CUR = prev
+                clear_library_caches()
         return self
 
 
